@@ -54,7 +54,9 @@ def base_cases(r, tier):
             F("src/m2", 40 * 4096, 2, mode=0o755, mtime_ns=1_222_222_222_000_000_002, xattrs={"user.t": "x"}),
             {"p": "src/d1", "k": "d"}, {"p": "src/d1/d2", "k": "d"}, F("src/d1/d2/m3", 12 * 4096 + 1, 3, mode=0o444, mtime_ns=1_333_333_333_123_456_789),
             F("src/d1/tiny", 3, 4), {"p": "src/d1/l", "k": "l", "target": "tiny"},
-            {"p": "src/sp", "k": "f", "size": 3 << 20, "seed": 5, "segs": [[0, 20000], [2 << 20, 30000]], "sync": True, "mode": 0o600}]
+            {"p": "src/sp", "k": "f", "size": 3 << 20, "seed": 5, "segs": [[0, 20000], [2 << 20, 30000]], "sync": True, "mode": 0o600},
+            # sparse, and its data runs up to an end of file that is not block-aligned (extent maps report whole blocks)
+            {"p": "src/sp-unaligned-end", "k": "f", "size": (3 << 20) + 123, "seed": 6, "segs": [[4096, 5000], [3 << 20, 123]], "sync": True, "mode": 0o644}]
     out.append({"name": "multi-block", "spec": spec, "pre": [], "bs": "4096", "expect_fail": False})
     # T3: overwrite of an older version
     spec3 = [{"p": "src", "k": "d"}] + tree.gen_tree(r, depth=2, fanout=4, kinds=("f", "f", "d"), prefix="src", nonutf8=False,
